@@ -206,3 +206,122 @@ M("str-history", STR, "        self.solidStrength = np.append(self.solidStrength
   ["C18:coupled"], ["strength_history_misaligned"], "solid-solution history skips every 7th step")
 M("gg-negative", GG, "        cG[growIndices] = lower[growIndices]", "        cG[growIndices] = 40 * lower[growIndices]",
   ["C18:graingrowth"], ["grain_psd_invalid", "drag_reverses_or_accelerates", "grain_volume_not_conserved", "mean_grain_size_decreases"], "pinned growth rates 40x too large")
+
+# ------------------------------------------------------------------ precipitation runs (C01, C02, C03)
+PP = "kawin/precipitation/PrecipitationParameters.py"
+M("kwn-misaligned", PP, "        for name in self.ATTRIBUTES:\n            setattr(self, name, np.concatenate([getattr(self, name), getattr(newData, name)], axis=0))", "        for name in self.ATTRIBUTES:\n            if name == 'Gcrit' and len(self.time) % 11 == 10:\n                continue\n            setattr(self, name, np.concatenate([getattr(self, name), getattr(newData, name)], axis=0))",
+  ["C03:wellformed"], ["misaligned_histories"], "one history skips every 11th append")
+M("kwn-volfrac-clip", KE, "            Y.volFrac[0,p] = np.amin([volRatio * precParams.nucleation.volumeFactor * self.PBM[p].ThirdMomentFromN(x[p]), 1])", "            Y.volFrac[0,p] = 1.5 * volRatio * precParams.nucleation.volumeFactor * self.PBM[p].ThirdMomentFromN(x[p])",
+  ["C03:wellformed", "C02:toy_binary"], ["volfrac_range", "total_fraction_above_one", "volfrac_not_third_moment"], "volume fraction 1.5x and unclipped")
+M("kwn-composition-floor", KE, "            Y.composition[0,Y.composition[0] < 0] = self.constraints.minComposition", "            Y.composition[0] = Y.composition[0] - (np.sum(Y.volFrac[0]) > 0.01) * 1.0",
+  ["C03:wellformed"], ["composition_range"], "matrix composition drops below zero once 1 % has precipitated")
+M("kwn-psd-negative", KE, "            x[p][self.PBM[p].PSDsize < self.constraints.minRadius] = 0", "            x[p][self.PBM[p].PSDsize < self.constraints.minRadius] = 0\n            if len(x[p]) > 12:\n                x[p][11] -= 2.0",
+  ["C03:wellformed"], ["psd_negative"], "two particles removed from class 11 at every evaluation")
+M("kwn-ravg-sign", KE, "            Y.Ravg[0,p] = self.PBM[p].MomentFromN(x[p], 1) / Y.precipitateDensity[0,p]", "            Y.Ravg[0,p] = -self.PBM[p].MomentFromN(x[p], 1) / Y.precipitateDensity[0,p]",
+  ["C03:wellformed", "C02:toy_binary"], ["negative_Ravg", "radius_not_moment_ratio"], "mean radius with the wrong sign")
+M("kwn-nan", KE, "            Y.ARavg[0,p] = self.PBM[p].WeightedMomentFromN(x[p], 0, precParams.shapeFactor.aspectRatio(self.PBM[p].PSDsize)) / Y.precipitateDensity[0,p]", "            Y.ARavg[0,p] = self.PBM[p].WeightedMomentFromN(x[p], 0, precParams.shapeFactor.aspectRatio(self.PBM[p].PSDsize)) / (Y.precipitateDensity[0,p] - Y.precipitateDensity[0,p])",
+  ["C03:wellformed"], ["non_finite_history"], "mean aspect ratio divided by zero")
+M("kwn-density", KE, "            Y.precipitateDensity[0,p] = self.PBM[p].ZeroMomentFromN(x[p])", "            Y.precipitateDensity[0,p] = self.PBM[p].ZeroMomentFromN(x[p]) * (1 + 1e-6)",
+  ["C02:toy_binary"], ["density_not_zeroth_moment"], "number density 1e-6 too high")
+M("kwn-mass-balance", KE, "            Y.composition[0] = (self.pData.composition[0] - np.sum(Y.fconc[0], axis=0)) / (1 - np.sum(Y.volFrac[0]))", "            Y.composition[0] = (self.pData.composition[0] - np.sum(Y.fconc[0], axis=0)) / (1 - 0.999*np.sum(Y.volFrac[0]))",
+  ["C01:toy_binary+toy_multi"], ["solute_not_conserved"], "matrix fraction 1 - 0.999 fv in the mass balance")
+
+# ------------------------------------------------------------------ diffusion (C04, C13), stopping conditions (C19), files (C20), orders (C11)
+DIFF, DP, SP, HOM, SC = "kawin/diffusion/Diffusion.py", "kawin/diffusion/DiffusionParameters.py", "kawin/diffusion/SinglePhase.py", "kawin/diffusion/Homogenization.py", "kawin/precipitation/StoppingConditions.py"
+M("diff-clip", DIFF, "        self.x = np.clip(self.x, self.constraints.minComposition, 1-self.constraints.minComposition)\n        self.record(self.t)", "        self.record(self.t)",
+  ["C04"], ["composition_out_of_range"], "documented clip of the profile removed")
+M("diff-bc-initial", DP, "                x[i,0] = self.leftBC[e]\n", "                x[i,0] = 0.999*self.leftBC[e]\n",
+  ["C04"], ["fixed_composition_value", "fixed_composition_drifts"], "left fixed composition applied at 99.9 %")
+M("diff-T-stage", SP, "        T = self.temperatureParameters(self.z, t)\n        d = np.zeros(self.N)", "        T = self.temperatureParameters(self.z, self.t)\n        d = np.zeros(self.N)",
+  ["C13:diffusion_T"], ["backend_temperature"], "single-phase fluxes use the temperature at the start of the step for every stage")
+M("diff-T-homog", HOM, "        T = self.temperatureParameters(self.z, t)\n\n        avg_mob", "        T = self.temperatureParameters(self.z[::-1], t)\n\n        avg_mob",
+  ["C13:diffusion_T"], ["backend_temperature"], "homogenization model evaluates the temperature field on the mirrored mesh")
+M("diff-extra-call", SP, "                inter_diff = self.therm.getInterdiffusivity(x[:,i], T[i], phase=self.phases[0])\n", "                inter_diff = self.therm.getInterdiffusivity(x[:,i], T[i], phase=self.phases[0])\n                if i == 0:\n                    self.therm.getInterdiffusivity(x[:,i], T[i], phase=self.phases[0])\n",
+  ["C13:diffusion_T"], ["backend_call_count"], "first node evaluated twice")
+M("kwn-T-record", KB, "            self._currY.temperature = np.array([self.temperatureParameters(t)])", "            self._currY.temperature = np.array([self.temperatureParameters(self.pData.time[self.pData.n])])",
+  ["C13:follow"], ["temperature_not_schedule"], "recorded temperature is the schedule at the previous time stamp")
+M("stop-interp", SC, "                    self._satisfiedTime = (currTime - prevTime) * (self._value - prevVal) / (currVal - prevVal) + prevTime", "                    self._satisfiedTime = 0.5*(currTime + prevTime)",
+  ["C19:stop"], ["time_not_interpolated"], "satisfied time is the midpoint of the crossing step")
+M("stop-relatch", SC, "        if not self._isSatisfied:\n            self._isSatisfied = self._testCondition(model)\n\n            if self._isSatisfied:", "        if True:\n            self._isSatisfied = self._testCondition(model)\n\n            if self._isSatisfied:",
+  ["C19:stop"], ["unlatched", "latched_time_changed", "not_latched"], "conditions are re-evaluated every step (no latching)")
+M("stop-strict", SC, "            return self._poll(model, model.pData.n) > self._value", "            return self._poll(model, model.pData.n) > self._value or model.pData.n == 3",
+  ["C19:stop"], ["satisfied_without_crossing", "stopped_without_condition"], "greater-than conditions report satisfied at step 3")
+M("stop-time-default", SC, "        if not self._isSatisfied:\n            self._isSatisfied = self._testCondition(model)\n", "        if not self._isSatisfied:\n            if model.pData.n > 5:\n                self._satisfiedTime = 0.0\n            self._isSatisfied = self._testCondition(model)\n",
+  ["C19:stop"], ["time_without_satisfaction"], "unsatisfied conditions report time 0 after five steps")
+M("save-psd", KE, "            data['PBM_PSD_' + self.phases[p]] = self.PBM[p].PSD", "            data['PBM_PSD_' + self.phases[p]] = np.where(self.PBM[p].PSD < 2, 0, self.PBM[p].PSD)",
+  ["C20:kwn_saveload"], ["distribution_not_reproduced"], "classes holding fewer than two particles are not saved")
+M("save-diffusion-state", DIFF, "            'finalTime': self.t,\n", "            'finalTime': float(np.float32(self.t)),\n",
+  ["C20:diffusion_saveload"], ["state_not_reproduced"], "current time saved in single precision")
+M("save-psd-record", PBM, "                np.savez_compressed(filename, time = self._recordedTime, bins = self._recordedBins, PSD = self._recordedPSD)", "                np.savez_compressed(filename, time = self._recordedTime, bins = self._recordedBins, PSD = self._recordedPSD.astype(np.float32))",
+  ["C20:kwn_saveload"], ["psd_record_not_reproduced"], "recorded distributions saved in single precision")
+
+# ------------------------------------------------------------------ thermodynamic queries (C09, C10, C11, C12), surrogates (C20)
+TH, BT, SUR, MOB = "kawin/thermo/Thermodynamics.py", "kawin/thermo/BinTherm.py", "kawin/thermo/Surrogate.py", "kawin/thermo/Mobility.py"
+M("th-ic-offset", BT, "        gExtra = np.atleast_1d(gExtra) + self.gOffset\n\n        #Compute equilibrium at guess composition", "        gExtra = np.atleast_1d(gExtra) + self.gOffset + 40\n\n        #Compute equilibrium at guess composition",
+  ["C12:binary_queries"], ["driving_force_at_interface"], "interfacial composition computed for a Gibbs-Thomson energy 40 J/mol too high")
+M("th-ic-sentinel", BT, "                    xPrecipArray[gIndex] = cs_precip.X[c_idx]\n", "                    if gIndex % 3 != 2:\n                        xPrecipArray[gIndex] = cs_precip.X[c_idx]\n",
+  ["C12:binary_queries"], ["sentinel_inconsistent"], "every third precipitate composition left at the sentinel")
+M("th-approx-scale", TH, "        dg = np.sum(xP * result.chemical_potentials) - np.sum(xP * chemical_potentials)", "        dg = 1.02 * (np.sum(xP * result.chemical_potentials) - np.sum(xP * chemical_potentials))",
+  ["C12:binary_queries"], ["methods_disagree"], "approximate driving force 2 % too large")
+M("th-tangent-sign", TH, "        dg = prec_eq_results.x[0]\n", "        dg = abs(prec_eq_results.x[0])\n",
+  ["C12:binary_queries"], ["sign_at_solvus", "driving_force_not_increasing", "methods_disagree"], "tangent driving force never negative")
+M("th-curvature-scale", TH, "        dg = np.matmul(xD, np.matmul(dMudxParent, xBar.T))", "        dg = 1.3 * np.matmul(xD, np.matmul(dMudxParent, xBar.T))",
+  ["C12:binary_queries"], ["curvature_limit"], "curvature driving force 30 % too large")
+M("th-diff-history", TH, "        self._diffusivity_cache[phase] = None if removeCache else comp_sets\n        return np.squeeze(Dnkj)", "        self._diffusivity_cache[phase] = None if removeCache else comp_sets\n        self._nq = getattr(self, '_nq', 0) + 1\n        return np.squeeze(Dnkj) * (1 + 1e-4 * (self._nq % 2))",
+  ["C09:query_sequences"], ["diffusivity_history_dependent"], "every other interdiffusivity query 1e-4 larger")
+M("th-diff-unsort", TH, "            Dnkj = Dnkj[unsortIndices,:]\n            Dnkj = Dnkj[:,unsortIndices]", "            Dnkj = Dnkj[unsortIndices,:]",
+  ["C11:element_order_queries+element_order_diffusion_run", "C10"], ["interdiffusivity_not_permuted", "diffusion_profile_not_permuted", "interdiffusivity_eigenvalues"], "interdiffusivity columns left in alphabetical order")
+M("th-tracer-negative", TH, "        Dtrace = Dtrace[unsortIndices]\n", "        Dtrace = Dtrace[unsortIndices]\n        Dtrace[0] = -Dtrace[0]\n",
+  ["C10"], ["tracer_not_positive", "tracer_not_RT_mobility"], "reference-element tracer diffusivity negated")
+M("sur-json", SUR, "        if isinstance(data, np.ndarray):\n            return data.tolist()", "        if isinstance(data, np.ndarray):\n            return np.round(data, 10).tolist()",
+  ["C20:surrogate+surrogate_multi"], ["json_roundtrip_differs"], "arrays rounded to 10 decimals when written to JSON")
+M("sur-smoothing", SUR, "        self.rbfModel = RBFInterpolator((x - self.xoffset[np.newaxis,:]) / self.scale[np.newaxis,:], y, *args, **kwargs)", "        self.rbfModel = RBFInterpolator((x - self.xoffset[np.newaxis,:]) / self.scale[np.newaxis,:], y, *args, smoothing=1e-2, **kwargs)",
+  ["C20:surrogate+surrogate_multi"], ["training_data_not_reproduced"], "interpolant built with smoothing 1e-2 (no longer interpolates its data)")
+M("sur-growth", SUR, "            curvature = self.curvatureFactor(x, T, precPhase)\n            return curvature.beta", "            curvature = self.curvatureFactor(x, T, precPhase)\n            return curvature.beta * (1 + 1e-9)",
+  ["C20:surrogate_multi"], ["trained_growth_inconsistent"], "trained impingement factor 1e-9 larger than the curvature beta")
+
+# ------------------------------------------------------------------ second pass: kinds not yet provoked
+MT = "kawin/thermo/MultiTherm.py"
+M("pbm-update-nan", PBM, "        self.PSD = newN\n        self.PSD[self.PSD < 1] = 0", "        self.PSD = newN\n        self.PSD[self.PSD < 1] = np.nan",
+  ["C03:wellformed"], ["psd_not_finite", "non_finite_history"], "classes below one particle become NaN")
+M("pbm-limit-above-c03", PBM, "indAbove = self._netFlux[1:]*dt > psd\n        self._netFlux[1:][indAbove] = psd[indAbove] / dt", "indAbove = self._netFlux[1:]*dt > 3*psd\n        self._netFlux[1:][indAbove] = 3*psd[indAbove] / dt",
+  ["C03:wellformed"], ["psd_negative"], "growth faces limited to three times the class content (run level)")
+M("kwn-total-fraction", KE, "            Y.volFrac[0,p] = np.amin([volRatio * precParams.nucleation.volumeFactor * self.PBM[p].ThirdMomentFromN(x[p]), 1])", "            Y.volFrac[0,p] = np.amin([0.6 + volRatio * precParams.nucleation.volumeFactor * self.PBM[p].ThirdMomentFromN(x[p]), 1])",
+  ["C03:wellformed"], ["total_fraction_above_one"], "every populated phase reports at least 60 % volume fraction")
+M("pbm-extend-ones", PBM, "        self.PSD = np.append(self.PSD, np.zeros(bins))", "        self.PSD = np.append(self.PSD, 2*np.ones(bins))",
+  ["C08:history"], ["extend_new_not_empty"], "appended classes hold two particles each")
+M("pbm-load-count", PBM, "        self.PSD = self.PSD.astype('float')", "        self.PSD = 2 * self.PSD.astype('float')",
+  ["C08:history"], ["load_count"], "LoadDistribution doubles the counts")
+M("pbm-moment-side-effect", PBM, "        return np.sum(N * self.PSDsize**order)", "        self.PSD = N\n        return np.sum(N * self.PSDsize**order)",
+  ["C08:moments"], ["moment_side_effect"], "MomentFromN stores the supplied distribution")
+M("pbm-moment-stored2", PBM, "        return self.MomentFromN(self.PSD, order)", "        return self.MomentFromN(self.PSD, order) * (1 + 1e-6)",
+  ["C08:moments"], ["moment_Moment"], "Moment() off by 1e-6")
+M("pbm-remesh-create", PBM, "            if newV != 0:\n                self.PSD *= oldV / newV\n            else:\n                self.PSD = np.zeros(self.bins)", "            if newV != 0:\n                self.PSD *= oldV / newV\n            else:\n                self.PSD = np.ones(self.bins)",
+  ["C08:history"], ["remesh_created_particles", "remesh_volume"], "re-meshing an empty distribution creates one particle per class")
+M("pbm-corrected-sum", PBM, "        dXdt = (self._netFlux[:-1] - self._netFlux[1:])\n\n        #Find size class for nucleated particles\n        nRad = np.argmax(self.PSDbounds > nucRadius) - 1\n        #A radius below the smallest size class goes to the first class (index -1 would wrap around to the largest class)\n        if nucRadius < self.PSDbounds[0]:\n            nRad = 0\n        dXdt[nRad] += nucRate\n\n        return dXdt\n    \n    def UpdatePBMEuler",
+  "        dXdt = (self._netFlux[:-1] - self._netFlux[1:])\n        dXdt[-1] += 1e-6 * abs(self._netFlux[-2])\n\n        nRad = np.argmax(self.PSDbounds > nucRadius) - 1\n        if nucRadius < self.PSDbounds[0]:\n            nRad = 0\n        dXdt[nRad] += nucRate\n\n        return dXdt\n    \n    def UpdatePBMEuler",
+  ["C07:limited"], ["corrected_sum"], "corrected derivative: last class gains 1e-6 of the flux through its lower face")
+M("pbm-flux-without-source", PBM, "        self._netFlux[1:] += flux[1:] * psd * fluxSign[1:] / dR\n", "        self._netFlux[1:] += flux[1:] * psd * fluxSign[1:] / dR\n        self._netFlux[0] += 1e-3 * abs(flux[0]) * psd[0] / dR[0]\n",
+  ["C07:limited+transport"], ["flux_without_source", "upwind_mismatch"], "bottom face carries an inward flux that no class feeds")
+M("hash-repeat", DP, "        return hash(tuple((np.concatenate((x, [T]))*self.hash_sensitivity).astype(np.int64)))", "        self._nq = getattr(self, '_nq', 0) + 1\n        return hash(tuple((np.concatenate((x, [T, self._nq // 4]))*self.hash_sensitivity).astype(np.int64)))",
+  ["C09:hashtable"], ["exact_repeat_missed"], "hash key changes every fourth call")
+M("th-ic-monotone", BT, "                    xMatrixArray[gIndex] = cs_matrix.X[c_idx]\n", "                    xMatrixArray[gIndex] = cs_matrix.X[c_idx] * (1 - 0.02 * (gIndex % 2))\n",
+  ["C12:binary_queries"], ["interfacial_composition_not_monotone", "driving_force_at_interface"], "every other interfacial composition 2 % low")
+M("th-ic-sentinel-gap", BT, "                    c_idx = 0 if self.reverse else 1\n                    xMatrixArray[gIndex] = cs_matrix.X[c_idx]\n                    xPrecipArray[gIndex] = cs_precip.X[c_idx]\n", "                    c_idx = 0 if self.reverse else 1\n                    if gIndex != 1:\n                        xMatrixArray[gIndex] = cs_matrix.X[c_idx]\n                        xPrecipArray[gIndex] = cs_precip.X[c_idx]\n",
+  ["C12:binary_queries"], ["sentinel_not_monotone"], "second Gibbs-Thomson entry always reported unstable")
+M("th-ic-batch", BT, "        return np.squeeze(caArray), np.squeeze(cbArray)\n\n    def _interfacialCompositionFromEq", "        return np.squeeze(caArray) * (1 + 1e-3 * (np.size(caArray) > 1)), np.squeeze(cbArray)\n\n    def _interfacialCompositionFromEq",
+  ["C09:query_sequences"], ["interfacial_composition_batch_dependent"], "array calls of the interfacial composition 1e-3 higher than scalar calls")
+M("mt-curvature-unsort", MT, "                                                             c_eq_alpha=xM[unsortIndices], ", "                                                             c_eq_alpha=xM, ",
+  ["C11:element_order_queries", "C09:query_sequences"], ["curvature_not_permuted", "tieline_history_dependent", "growth_history_dependent"], "equilibrium matrix composition of the curvature factors left in alphabetical order")
+M("mob-unsort", DP, "            chemical_potentials = np.squeeze(wks.eq.MU)[unsortIndices]", "            chemical_potentials = np.squeeze(wks.eq.MU)",
+  ["C11:element_order_mobility"], ["chemical_potentials_not_permuted"], "chemical potentials of computeMobility left in alphabetical order")
+M("mob-unsort2", DP, "                mob[p,:] = mobility_from_composition_set(cs, therm.mobCallables[phases[p]], therm.mobility_correction)[unsortIndices]", "                mob[p,:] = mobility_from_composition_set(cs, therm.mobCallables[phases[p]], therm.mobility_correction)",
+  ["C11:element_order_mobility", "C10"], ["mobility_not_permuted", "homogenized_mobility_not_permuted", "tracer_not_RT_mobility"], "mobilities of computeMobility left in alphabetical order")
+M("sites-clip", KE, "        return np.amax([nucleationSites, 0])", "        return nucleationSites",
+  ["C14:sites"], ["sites_negative_or_nan"], "available sites no longer floored at zero")
+M("nuc-rate-kept", KB, "                Y.impingement[0,p] = 0\n                Y.nucRate[0,p] = 0\n                Y.Rnuc[0,p] = 0\n                continue\n\n            # Critical Gibbs", "                Y.impingement[0,p] = 0\n                Y.Rnuc[0,p] = 0\n                continue\n\n            # Critical Gibbs",
+  ["C14:trajectory"], ["rate_without_driving_force"], "nucleation rate of the previous step kept while the driving force is negative")
+M("el-size-exponent", EF, "        endTerm = 1 / self._beta(radius[0], radius[1], radius[2], self.midPhiGrid, self.midThetaGrid)**3", "        endTerm = 1 / self._beta(radius[0], radius[1], radius[2], self.midPhiGrid, self.midThetaGrid)**3.02",
+  ["C16:quadratic"], ["not_cubic_in_size"], "integrand with beta^3.02")
+M("gg-sign", GG, "        return self.alpha * self.M * self.gbe * (1 / self.Rcr(x) - 1 / self.pbm.PSDbounds)", "        return -self.alpha * self.M * self.gbe * (1 / self.Rcr(x) - 1 / self.pbm.PSDbounds)",
+  ["C18:graingrowth"], ["mean_grain_size_decreases"], "grain growth with the opposite sign")
